@@ -12,6 +12,7 @@ import Proofs.GoTieNonce
 import Proofs.GoTieEncrypt
 import Proofs.GoTieGenerate
 import Proofs.GoTieCliPass
+import Proofs.GoTieWitnessA
 namespace AgeModel
 namespace Tie.C06
 
@@ -131,6 +132,14 @@ theorem autogen_injective (W : List Bytes) (hW : W.length = 2048) (hnd : W.Nodup
     (r1 r2 : Bytes) (h1 : r1.length = 20) (h2 : r2.length = 20) (h : GoTie.autogen W r1 = GoTie.autogen W r2) :
     GoTie.wordsOf W r1 = GoTie.wordsOf W r2 :=
   GoTie.autogen_injective W hW hnd hdash r1 r2 h1 h2 h
+
+/-- **the assumption structures this file's theorems take are satisfiable** (for a lawful toy primitive suite
+    with the 16-byte tag, where they mention primitives): none of the theorems above is vacuous. The instances are in
+    `Proofs/GoTieWitnessA.lean` / `GoTieWitnessB.lean`. -/
+theorem assumptions_satisfiable :
+    Prims.toy16.Correct ∧ Prims.toy16.aead.NonceSep ∧ Prims.toy16.aead.T = 16 ∧
+    (∀ S : Stream.DstSpec, Nonempty (GoTie.EncryptEnv Prims.toy16 S Recipient (Stream.Dst S) (Option (Bytes × Stream.Dst S)))) :=
+  ⟨Prims.toy16_correct, AEAD.toy16_nonceSep, rfl, (fun S => ⟨GoTie.EncryptEnv.witness S⟩)⟩
 
 end Tie.C06
 end AgeModel
